@@ -1,5 +1,6 @@
 //! vh - verification harness for BWeng20/rFSM (driven by /verif/tools/check.py).
 
+mod expr;
 mod rec;
 mod run;
 mod ser;
@@ -21,6 +22,13 @@ fn main() {
             let threads = args.get(4).and_then(|s| s.parse().ok()).unwrap_or(8usize);
             if let Err(e) = run::run_file(&args[2], &args[3], threads) {
                 eprintln!("run failed: {}", e);
+                std::process::exit(2);
+            }
+        }
+        "expr" => {
+            // vh expr <jobs.ndjson> <out.ndjson>
+            if let Err(e) = expr::run_file(&args[2], &args[3]) {
+                eprintln!("expr failed: {}", e);
                 std::process::exit(2);
             }
         }
